@@ -407,6 +407,19 @@ class Interp:
         lid = f'L{getattr(st, "lineno", 0)}'
         assigned = self._assigned_names(st.body)
         info = {'id': lid, 'kind': kind, 'node': st}
+        # name-independent identity of a loop-carried local: its value at loop entry (+ ordinal on ties), so that
+        # renaming the local does not change terms; the readable name is kept in LOOPVAR_LABELS for reports
+        canon = {}
+        order = []
+        for b in st.body:
+            for n_ in ast.walk(b):
+                if isinstance(n_, ast.Name) and n_.id in assigned and isinstance(n_.ctx, ast.Store) and n_.id not in order:
+                    order.append(n_.id)
+        carried_order = [n_ for n_ in order + sorted(assigned - set(order)) if n_ in fr.env]
+        for k_, n_ in enumerate(carried_order):
+            canon[n_] = f'c{k_}'
+            T.LOOPVAR_LABELS[(canon[n_], lid)] = n_
+        info['canon'] = canon
         if kind == 'for':
             it = self.ev(st.iter, fr)
             info['iter'] = it
@@ -421,7 +434,7 @@ class Interp:
             e1 = dict(env0)
             for n in assigned:
                 if n in e1:
-                    e1[n] = Term.of(Atom('loopvar', n, lid))
+                    e1[n] = Term.of(Atom('loopvar', canon.get(n, n), lid))
             fr.env = e1
             if kind == 'for':
                 self.assign(st.target, tgt_val[0], fr, st, quiet=True)
@@ -434,7 +447,7 @@ class Interp:
         fr.env, self.heap = dict(env0), dict(heap0)
         carried = [n for n in assigned if n in env0]
         for n in carried:
-            fr.env[n] = Term.of(Atom('loopvar', n, lid))
+            fr.env[n] = Term.of(Atom('loopvar', canon.get(n, n), lid))
         for k in written:
             self.heap[k] = Term.of(Atom('loopvar', k[0] + '.' + k[1], lid))
         if kind == 'for':
@@ -459,7 +472,7 @@ class Interp:
         fr.env, self.heap = dict(env0), dict(heap0)
         for n in assigned:
             acc = self._accumulator(st, n, info, env0.get(n), fr) if kind == 'for' else None
-            fr.env[n] = acc if acc is not None else Term.of(Atom('after', n, lid))
+            fr.env[n] = acc if acc is not None else Term.of(Atom('after', canon.get(n, n), lid))
         for k in written:
             self.heap[k] = Term.of(Atom('after', k[0] + '.' + k[1], lid))
         if st.orelse:
@@ -527,7 +540,7 @@ class Interp:
                 and isinstance(st.target, ast.Name)):
             return None
         env = info.get('env_exit', {})
-        lv = Term.of(Atom('loopvar', name, info['id']))
+        lv = Term.of(Atom('loopvar', info.get('canon', {}).get(name, name), info['id']))
         after = env.get(name)
         if after is None:
             return None
